@@ -182,6 +182,21 @@ def run(ck):
                                                                            it.new_list([it.new_list([VConst(0.0), VConst(0.0)]), it.new_list([VConst(0.0), VConst(0.0)])])])}, None)
             return x, r
 
+        def thg(it):
+            # a user unitary written as nested python lists of floats (e.g. 1 / sqrt(2)): the values must arrive in the dictionary unrounded
+            f_ = lambda n: VNum("float", T.sym(n))  # noqa: E731
+            g = it.new_list([it.new_list([it.new_list([f_("g00r"), f_("g01r")]), it.new_list([f_("g10r"), f_("g11r")])]),
+                             it.new_list([it.new_list([f_("g00i"), f_("g01i")]), it.new_list([f_("g10i"), f_("g11i")])])])
+            return it.call_function(VFunc(cd), [], {"G": g}, None)
+
+        for p in returning(paths_of(prog, thg), "create_dict(user list of floats)"):
+            nar = p.interp.narrowings
+            ck.check(not nar, "C04.R1", "user unitary given as python floats is stored in double precision", nar[0][0] if nar else cd.site(),
+                     "create_dict(G=<nested list of python floats>): %s before the conversion to double - the stored unitary is the user's matrix rounded to single precision (entries off by ~3e-8, "
+                     "rotated amplitudes by ~1e-7), not the per-site unitary the user gave" % (nar[0][1] if nar else ""), key="C04.R1|create_dict|user floats rounded to float32")
+            v = p.value.obj.items.get("G") if isinstance(p.value, VDict) and p.value.obj.items else None
+            ck.check(isinstance(v, VTens) and v.shape == (2, 2, 2), "C04.R1", "user unitary given as python floats: shape (2,2,2)", cd.site(), "the stored entry has shape %s" % (getattr(v, "shape", None),))
+
         for p in returning(paths_of(prog, thu), "create_dict(user)"):
             x, r = p.value
             items = r.obj.items
@@ -315,6 +330,7 @@ def run(ck):
         rot = [p for p in paths if some_selected(p, "_rotate_basis_state") is True]
         flat = [p for p in paths if some_selected(p, "_rotate_basis_state") is False]
         ck.check(bool(rot) and bool(flat), "C04.R3", "rotated and unrotated branches", rbs.site(), "expected a branch with rotated sites and one without")
+        check_index_truthiness(ck, "C04.R3", "_rotate_basis_state", rbs.site(), paths)
         for p in flat:
             Ut, v = p.interp.concrete_items(p.value)
             ck.check(isinstance(Ut, VTens) and Ut.term == T.ONE, "C04.R3", "no rotated site -> factor 1", rbs.site(), "without rotated sites the unitary factor is %r, expected 1" % (getattr(Ut, "term", None),))
@@ -419,6 +435,9 @@ def run(ck):
                 if t0 is None or tp is None:
                     ck.undecided("C04.R2", inst + " [%s]" % _c(p), fn_.site(), "results are not comparable terms")
                     continue
+                # "exactly what the dense Kronecker product gives": neither form passes through a clamp or an added epsilon
+                tp = unregularised(ck, "C04.R2", fname + "(include_extras=False) [%s]" % _c(p), fn_.site(), "rotated result", tp, key="C04.R2|%s|plain regularised" % fname)
+                t0 = unregularised(ck, "C04.R2", fname + "(include_extras=True) [%s]" % _c(p), fn_.site(), "rotated result", t0, key="C04.R2|%s|extras regularised" % fname)
                 from .history import _same
 
                 if _same(tp, t0):
